@@ -551,6 +551,9 @@ func histFeatureSet(c *Case, field int, kind string) []string {
 		if f.Kind == KNested {
 			set["nested"] = true
 		}
+		if f.dotted() {
+			set["dotted-key"] = true
+		}
 		if f.Rng >= 0 && kind == "range-accepted" {
 			set["range"] = true
 		}
@@ -559,7 +562,7 @@ func histFeatureSet(c *Case, field int, kind string) []string {
 		}
 	}
 	var fs []string
-	for _, k := range []string{"nested", "optional", "optional-dep", "default", "range", "options"} {
+	for _, k := range []string{"dotted-key", "nested", "optional", "optional-dep", "default", "range", "options"} {
 		if set[k] {
 			fs = append(fs, k)
 		}
@@ -584,6 +587,10 @@ func subset(a, b []string) bool {
 // the shard
 
 func histItems(s shardSpec, th bool) []histItem {
+	if s.group == "hk" {
+		_, u2 := hkSplit(s.entry)
+		return hkUniverse(u2, th, false)
+	}
 	if s.entry == EMIX {
 		return mixUniverse(th, s.part/2)
 	}
@@ -734,7 +741,12 @@ func histDumpChild(cfg *vlib.Config) {
 	cfg.Tier = p[2]
 	cfg.BudgetS = 3600
 	x := &runner{r: vlib.NewReport(cfg), cfg: cfg, shard: p[0], seenKey: map[string]bool{}, inReplay: true, hist: true, quiet: true}
-	out := x.runHist(parseShard(p[0]), ti)
+	var out []string
+	if s := parseShard(p[0]); s.group == "hk" {
+		out = x.runHK(s, ti)
+	} else {
+		out = x.runHist(s, ti)
+	}
 	b, _ := json.Marshal(out)
 	fmt.Println(string(b))
 	os.Exit(0)
@@ -798,6 +810,9 @@ func coldOrderCase(fwd, rev string, ti int, tier string) (*Case, string) {
 		c.fill(nil)
 		c.Expected += "; the same verdict and value whatever was unmarshalled before"
 		c.Observed = fmt.Sprintf("first evaluation in a process enumerating in forward order (%s): %s — in reverse order (%s): %s", fwd, a[v], rev, b[v])
+		if u1, u2 := hkSplit(parseShard(rev).entry); parseShard(rev).group == "hk" && u1 != "" {
+			c.Observed = fmt.Sprintf("in a fresh process that only ran the %s entry (%s): %s — in a process that ran the %s entry before (%s): %s", u2, fwd, a[v], u1, rev, b[v])
+		}
 		return c, c.Observed
 	}
 	return nil, ""
